@@ -1,4 +1,4 @@
-#!/usr/bin/env python3
+#!/venv/bin/python
 """ad-hoc in-memory mutation:  mut.py C02 pandapipes.pf.derivative_toolbox 'old text' 'new text'
 runs the property's quick rules on the mutated source (no files written) and prints failing keys"""
 import sys, os
